@@ -30,12 +30,12 @@ def _write_cfg(ctx, name, consts, tail):
 
 
 def _consts(nids=3, naddrs=3, filt=(), defect=True, maxlen=2, bad=False, dup=False, depth=2, sim=False, mixed=True,
-            burst=0, ordered=True, split=False, c0peer="a0", late=False, schema=False, overlap=False):
+            burst=0, ordered=True, split=False, c0peer="a0", late=False, schema=False, overlap=False, control=False):
     b = lambda x: "TRUE" if x else "FALSE"
     return collections.OrderedDict(
         Ids=_tla_set("i%d" % k for k in range(1, nids + 1)), Addrs=_tla_set("a%d" % k for k in range(1, naddrs + 1)),
         Filt=_tla_set(filt), DefectByAddr=b(defect), C0peer='"%s"' % c0peer, MaxLen=maxlen,
-        WithBad=b(bad), WithDup=b(dup), WithSplit=b(split), LateEvents=b(late), SchemaPlan=b(schema), Overlap=b(overlap), GenDepth=depth,
+        WithBad=b(bad), WithDup=b(dup), WithSplit=b(split), LateEvents=b(late), SchemaPlan=b(schema), Overlap=b(overlap), ControlPlan=b(control), GenDepth=depth,
         Sim=b(sim), Mixed=b(mixed), Burst=burst, Ordered=b(ordered))
 
 
@@ -258,6 +258,9 @@ def _after_model(ctx, quick, rnd, binary, defect, runs):
     # empty / stays readable while a schema event drops the cached copy; then any step
     jobs.append(("schema-3", dict(policies=("ta-rr", "ta-dc"), twice=True), lambda: _gen(
         ctx, "gen_schema3.cfg", _consts(defect=defect, depth=3, mixed=True, maxlen=2, schema=True), workers=2)[0]))
+    # control node lost, answers again, a refresh before the session has reconnected (has to return), reconnection
+    jobs.append(("control-5", dict(), lambda: _gen(
+        ctx, "gen_control5.cfg", _consts(defect=defect, depth=5, maxlen=2, control=True), workers=2)[0]))
     if not quick:
         jobs.append(("split-mixed-2", dict(c0peer="b0"), lambda: _gen(
             ctx, "gen_split2.cfg", _consts(defect=defect, depth=2, mixed=True, maxlen=1, split=True, c0peer="b0"), workers=2)[0]))
@@ -268,11 +271,11 @@ def _after_model(ctx, quick, rnd, binary, defect, runs):
         c0 = "b0" if len(filt) != 1 else "a0"
         jobs.append(("sim-filter%d" % len(filt), dict(filt=filt, c0peer=c0, policies=POLICIES), (lambda filt=filt, c0=c0: _thin(_gen(
             ctx, "gen_sim%d.cfg" % len(filt), _consts(defect=defect, depth=dep, sim=True, bad=True, dup=True, maxlen=3, filt=filt, burst=24,
-                                                       split=True, c0peer=c0, schema=True),
+                                                       split=True, c0peer=c0, schema=True, control=True),
             simulate="num=%d" % (ntr if len(filt) < 2 else ntr // 3), depth=dep + 1, seed=ctx.seed * 7 + len(filt), timeout=900)[0], 2, rnd))))
     if not quick:
         jobs.append(("sim-4x4", dict(nids=4, naddrs=4, c0peer="b0", policies=POLICIES), lambda: _thin(_gen(
-            ctx, "gen_sim44.cfg", _consts(nids=4, naddrs=4, defect=defect, depth=7, sim=True, bad=True, dup=True, maxlen=2, split=True, c0peer="b0", schema=True),
+            ctx, "gen_sim44.cfg", _consts(nids=4, naddrs=4, defect=defect, depth=7, sim=True, bad=True, dup=True, maxlen=2, split=True, c0peer="b0", schema=True, control=True),
             simulate="num=300", depth=8, seed=ctx.seed * 7 + 5, timeout=1200)[0], 2, rnd)))
     with cf.ThreadPoolExecutor(4) as ex:
         results = list(ex.map(lambda j: j[2](), jobs))
@@ -298,7 +301,7 @@ def _after_model(ctx, quick, rnd, binary, defect, runs):
     direct = list(scs)
     # end to end: EVENT frames on the control connection, real debouncers, heartbeat reconnection
     nw = 24 if quick else 160
-    hs, _ = _gen(ctx, "gen_wire.cfg", _consts(defect=defect, depth=3 if quick else 4, sim=True, bad=False, dup=False, maxlen=3, burst=40, ordered=False, split=True, schema=True),
+    hs, _ = _gen(ctx, "gen_wire.cfg", _consts(defect=defect, depth=3 if quick else 4, sim=True, bad=False, dup=False, maxlen=3, burst=40, ordered=False, split=True, schema=True, control=True),
                  simulate="num=%d" % nw, depth=5, seed=ctx.seed * 7 + 3, timeout=600)
     wire = _scenarios(_thin(hs, 1, rnd)[:nw], len(scs), mode="wire", src="wire", policies=POLICIES)
     scs += wire
